@@ -118,6 +118,14 @@ def r1(ctx):
     k_e = p2.operand(t2.args[0])
     rule.check(all(x[0] == "call" and short(x[1]) == "rand::random" for x in roots(n_e)) and roots(n_e), "handshake nonce = rand::random()", "handshake|nonce",
                "the handshake message nonce derives from %s" % fmt_short(n_e), loc=b2.loc(t2.line))
+    # ... the whole of it: the random buffer is not written into before it is used (part of it overwritten with a constant or a counter makes
+    # the handshake message share a nonce prefix with a message of the new session, which is sealed under the same key)
+    import c02
+    nl = c02.base_local(b2, t2.args[1].place.local) if t2.args[1].place is not None else None
+    touched = c02.mut_borrowed_locals(b2, nl, bi2) if nl is not None else [("?", 0, "nonce local not found")]
+    rule.check(not touched, "the random handshake nonce is used as generated (never written into)", "handshake|nonce-overwritten",
+               "Session::encrypt_with_header writes into the random nonce buffer before using it (%s): part of the handshake message's nonce is not random"
+               % ", ".join("%s at line %s" % (k, l) for _, l, k in touched), loc=b2.loc(t2.line))
     rule.check(any(x[0] == "call" and x[1] == CR + "generate_session_keys" for x in walk(k_e)), "handshake key = fresh generate_session_keys(..) of this call", "handshake|key",
                "the handshake message is encrypted under %s" % fmt_short(k_e), loc=b2.loc(t2.line))
     na = [(bi, t) for bi, t in b2.calls() if (t.callee() or "") == "crate::packet::Packet::new_authheader"]
